@@ -224,6 +224,17 @@ def canon(obj):
     return json.dumps(obj, sort_keys=True, separators=(',', ':'))
 
 
+def truncate_deep(obj, n=400):
+    """copy of a JSON-able object with long strings cut (evidence samples stay readable)"""
+    if isinstance(obj, str):
+        return obj if len(obj) <= n else obj[:n] + f'...(+{len(obj) - n} chars)'
+    if isinstance(obj, list):
+        return [truncate_deep(x, n) for x in obj[:60]]
+    if isinstance(obj, dict):
+        return {k: truncate_deep(v, n) for k, v in obj.items()}
+    return obj
+
+
 def shrink_list(seq, still_fails, max_steps=400):
     """Delta-debugging on a list: smallest sub-list (found greedily) on which still_fails."""
     seq = list(seq)
@@ -443,7 +454,8 @@ class Check:
             'evaluations': len(cases) + searched,
             'distinct_nontrivial': len(nontriv),
             'rule': self.rule(),
-            'samples': [{'case': c, 'impl': o} for c, o in list(zip(cases, impl_outs))[len(corpus):len(corpus) + 3]],
+            'samples': truncate_deep([{'case': c, 'impl': o} for c, o in
+                                      list(zip(cases, impl_outs))[len(corpus):len(corpus) + 3]]),
             'corpus_cases': len(corpus),
             'traces_validated_against_impl': len(cases) if model_outs is not None else 0,
             'disagreements_checked': len(disagreements),
